@@ -854,6 +854,11 @@ theorem gen_wiring_paired (sr aa : Bool) :
 def expand (sr aa : Bool) (log : List Hook) : List String :=
   log.flatMap fun h => ((hookCalls sr aa (match h with | .up => "OnStarted" | .down => "OnStopped")).getD ["?"])
 
+/-- **regenerated**: `Start()` runs the `OnStarted` round itself — one loop over the list, not under `go`, not inside a function
+literal — so the round is over when `Start()` returns, and a `Stop()` the run loop makes afterwards (`runLoopOps`) finds
+everything `Setup` did (`NV.SvcLife.step`: the `up` entry is in the log when `.start` returns). -/
+theorem gen_start_hooks_inline : Gen.Hooks.startHookRounds = 1 ∧ Gen.Hooks.startHookRoundsAsync = 0 := by decide
+
 /-- **the daemon under its run loop, every configuration, every start outcome, every signal sequence**:
 a run that started and received a stopping signal made exactly the start-up calls followed by their
 undoing calls (router Restore after Setup, deactivate after activate); a run that never started made none;
